@@ -19,12 +19,16 @@ RULE = ("the full decision table skipped x rate {0, 1/4, 1/2, float(0.1), 1, 3/2
         "over ratio x draw with scripted random, and over histories of 2-3 S3 cassettes with a size-band calculator living in "
         "one process (created one after the other / interleaved / one saving in between; same or other bucket; a twin with "
         "other content in the same size bands), each drawing from the generator it constructed itself: every decision "
-        "follows the rule on the tapped draw and cassettes with the same history decide the same; seeded real-Random histories run twice and as content/outcome-varied twins; "
+        "follows the rule on the tapped draw and cassettes with the same history decide the same; seeded real-Random histories run twice and as content/outcome-varied twins, "
+        "for an ordinary seed and for every kind of value Random accepts (0, 0.0, '', b'', False, True, negative, 2**40, 2**64+1, "
+        "text, bytes; two classes with different fractional rates), the decisions also compared with the documented rule applied "
+        "to the stream of random.Random(seed) itself; "
         "non-trivial = a row where the draw decides or a force/discard interacts; distinct = distinct case")
 ASSUMPTIONS = ["the Mersenne Twister is an oracle stream; uniformity is assumed, the kept fraction over a seeded history is "
                "reported as an observation only",
                "sampling rates and draws are dyadic rationals or the exact value of a float, compared exactly"]
-TRUSTED = ["harness-side re-statement of the documented policy (keep_expected) used by the direct predicate"]
+TRUSTED = ["harness-side re-statement of the documented policy (keep_expected) used by the direct predicate",
+           "random.Random(seed) of the interpreter as the reference stream a seed stands for"]
 THEOREMS = ["C17_keep_policy", "C17_ignore_forcing", "C17_force_does_not_leak", "C17_reproducible", "C17_fraction",
             "C17_s3_sampling"]
 
@@ -135,7 +139,58 @@ def generate(rng, tier):
             runs_b = [row_run(dict(base, outcome=rng.choice(["return", "raise", "interrupt"])), variant=rng.randrange(1, 4))
                       for _ in range(n)]
             cases.append(dict(kind="seeded", seed=seed, rate=rate, runs_a=runs_a, runs_b=runs_b))
+    # every value random.Random accepts is a seed: zero and the other falsy ones, negative, huge, text and bytes - each
+    # with a history that mixes two classes of different fractional rates (the decisions of Random(seed) itself are the
+    # reference: "reproducible from the seed")
+    n = 40 if tier == "quick" else 200
+    for k, (seed, seed_type) in enumerate(EDGE_SEEDS):
+        ra, rb = [RATES[1], RATES[2], TENTH][k % 3], [RATES[2], TENTH, RATES[1]][k % 3]
+        runs_a, runs_b = [], []
+        for j in range(n):
+            second = rng.random() < 0.4
+            base = dict(skipped=False, rate=rb if second else ra, force_from="none", ignore=False, discard="none", draw=[0, 1])
+            a = row_run(dict(base, outcome="return"))
+            b = row_run(dict(base, outcome=rng.choice(["return", "raise", "interrupt"])), variant=rng.randrange(1, 4))
+            if second:
+                a["op"]["cls"] = b["op"]["cls"] = "OpK2"
+            runs_a.append(a)
+            runs_b.append(b)
+        c = dict(kind="seeded", seed=seed, rate=ra, runs_a=runs_a, runs_b=runs_b)
+        if seed_type:
+            c["seed_type"] = seed_type
+        cases.append(c)
     return cases
+
+
+# (seed as carried by the JSON case, how to read it: see seed_value)
+EDGE_SEEDS = [(0, None), (0, "float"), ("", None), ("", "bytes"), (0, "bool"), (1, "bool"), (-7, None), (-1, None),
+              (2 ** 40, None), (2 ** 64 + 1, None), (110613, None), ("0", None), ("seed \u00e9", None), ("\x00\xff", "bytes"),
+              (0.5, "float")]
+
+
+def seed_value(case):
+    """the seed value a 'seeded' case stands for (JSON cannot carry bytes); the driver's seed_of reads it the same way"""
+    sd = case["seed"]
+    t = case.get("seed_type")
+    return sd.encode("latin-1") if t == "bytes" else float(sd) if t == "float" else bool(sd) if t == "bool" else sd
+
+
+def seeded_expected(case, runs):
+    """The decisions the seed determines: the documented rule applied to the stream of random.Random(seed) itself."""
+    import random
+    import warnings
+    with warnings.catch_warnings():
+        warnings.simplefilter("ignore")
+        r = random.Random(seed_value(case))
+    out = []
+    for run in runs:
+        row = dict(run["row"])
+        if keep_expected(row)[1]:
+            x = r.random()
+            out.append("save" if x <= float(Fraction(*row["rate"])) else "abort")
+        else:
+            out.append({"save": "save", "abort": "abort", "none": "abort"}[keep_expected(row)[0]])
+    return out
 
 
 def decision(cass):
@@ -197,6 +252,14 @@ def direct(case, obs):
         if obs.get("a_threads") is not None and obs["a1"] != obs["a_threads"]:
             fails.append(("depends-on-thread", "same seed, same history, every operation on a thread of its own: the decisions "
                           "differ from the single-threaded run (%d kept vs %d)" % (obs["a_threads"].count("save"), obs["a1"].count("save"))))
+        want = seeded_expected(case, case["runs_a"])
+        for name in ("a1", "b"):
+            if obs[name] != want:
+                k = [i for i, (x, y) in enumerate(zip(obs[name], want)) if x != y]
+                fails.append(("not-the-seeded-stream", "random_seed=%r: the decisions are not those of Random(seed) under the "
+                              "documented rule (history %s, %d of %d differ, first at run %d)" %
+                              (seed_value(case), name, len(k), len(want), k[0] if k else -1)))
+                break
     return fails
 
 
@@ -216,6 +279,10 @@ def features(case):
         return fs
     if case["kind"] == "s3hist":
         return c17_s3.features(case)
+    if case["kind"] == "seeded":
+        sd = seed_value(case)
+        return {"seeded", "seed:%s:%s" % (type(sd).__name__, "falsy" if not sd else "negative" if isinstance(sd, (int, float)) and sd < 0
+                                            else "truthy")}
     return {case["kind"]}
 
 
@@ -244,7 +311,9 @@ MANIFEST = dict(
          "is hit exactly) run on the real TapeRecorder in histories of three, cassette-call kinds and recorder fields compared "
          "with the model; the real S3TapeCassette._should_sample against the model rule, single decisions with a scripted draw "
          "and histories of several cassettes in one process with their own generators (tapped draws). Direct predicate: harness-side "
-         "re-statement of the policy incl. draws consumed; seeded histories twice and as content/outcome-varied twins.",
+         "re-statement of the policy incl. draws consumed; seeded histories twice and as content/outcome-varied twins, over ordinary "
+         "and edge seeds (0 and the other falsy values, negative, huge, text, bytes), and against the rule applied to "
+         "random.Random(seed) itself.",
     note="Trusted: Coq kernel + vm_compute, hand-written model, correspondence harness, harness-side policy re-statement. The "
          "random generator is an oracle stream (uniformity assumed; kept fraction over seeded histories reported, never a "
          "violation by itself).",
